@@ -225,4 +225,5 @@ class C08(Check):
 
 
 def main(tier, seed, replay=None):
-    return C08().main(tier, seed, replay)
+    from harness import densex
+    return densex.extend(C08, densex.D08())().main(tier, seed, replay)
